@@ -152,7 +152,8 @@ class LessParser(object):
         self.result = self.parser.parse(file, lexer=self.lex, debug=debuglevel)
 
         self.post_parse()
-        self.register.close()
+        if not self.importlvl:
+            self.register.close()
 
     def post_parse(self):
         """ Post parse cycle. nodejs version allows calls to mixins
@@ -257,6 +258,9 @@ class LessParser(object):
                         importlvl=self.importlvl + 1,
                         verbose=self.verbose,
                         scope=self.scope)
+                    # what goes wrong in an imported file goes wrong in
+                    # this compilation
+                    recurse.register = self.register
                     recurse.parse(filename=filename, debuglevel=0)
                     p[0] = recurse.result
                 else:
@@ -264,7 +268,7 @@ class LessParser(object):
                     self.handle_error(err, p.lineno(1), 'W')
                     p[0] = None
             except ImportError as e:
-                self.handle_error(e, p)
+                self.handle_error(e, p.lineno(1))
         else:
             p[0] = Statement(list(p)[1:], p.lineno(1))
             p[0].parse(None)
